@@ -20,6 +20,9 @@ import random
 
 from goast import *
 
+# byte strings that are not valid UTF-8: stray continuation bytes, overlong encodings, truncated sequences, surrogates, > U+10FFFF
+INVALID_WORDS = [b"\x80", b"a\xbfb", b"\xc0\x80", b"x\xe2\x82", b"\xed\xa0\x80y", b"\xf4\x90\x80\x80", b"\xffz", b"\xe4\xb8", b"k\x80\x80", b"\xc3(",
+                 b"\xf0\x9f\x98"]
 ASCII_WORDS = [b"a", b"go", b"xyz", b"llgo", b"hello", b"Q", b"w0", b"-", b"core", b"zz top"]
 UTF8_WORDS = ["hé", "世界", "aßc", "\U0001F600x", "λ"]
 MAX_COST = 40000
@@ -108,6 +111,9 @@ class Gen:
         return IntLit(ty, v)
 
     def str_lit(self):
+        if self.rng.random() < 0.1:
+            self.feat.add('invalid-utf8-string')
+            return StrLit(self.rng.choice(INVALID_WORDS))
         if self.rng.random() < 0.3:
             return StrLit(self.rng.choice(UTF8_WORDS).encode())
         return StrLit(self.rng.choice(ASCII_WORDS))
@@ -183,6 +189,13 @@ class Gen:
                     self.feat.add('field-shadowing')
             own.append(name)
             d.fields.append((name, self.simple_type(), False))
+        if self.rng.random() < 0.3:
+            # a func-typed field: the lowered struct type is rebuilt (closure struct), embedding and tags must survive
+            self.nfield += 1
+            k = tint(self.kind())
+            d.fields.append(('F%d' % self.nfield, self.P.sig([k], [k]) if self.rng.random() < 0.6 else self.P.sig([], [k]), False))
+            d.has_func_field = True
+            self.feat.add('func-field')
         if self.rng.random() < 0.3:
             # a blank field: it can only be set by a positional literal inside the declaring package and is ignored by ==
             d.fields.insert(self.rng.randint(1 if d.fields[0][2] else 0, len(d.fields)), ('_', tint(self.kind()), False))
@@ -384,7 +397,7 @@ class Gen:
                 return New(StructLit(u[1], [Zero(ft) if fn == '_' else self.expr(cx, ft, 0) for fn, ft, emb in dd.fields]))
             return New(Zero(u[1]))
         if h == 'func':
-            return self.closure(cx, ty)
+            return self.closure(cx, ty, nstmts=1)
         raise ValueError(ty)
 
     def nonconst_int(self, cx, ty):
@@ -947,6 +960,9 @@ class Gen:
             c = r.random()
             if c < 0.4:
                 e = self.str_lit() if r.random() < 0.7 else self.str_expr(cx, 1)
+                if r.random() < 0.3:
+                    e = StrLit(r.choice(INVALID_WORDS) + r.choice([b"", b"a", "é".encode()]))
+                    self.feat.add('range-invalid-utf8')
                 t = STR
             elif c < 0.7:
                 t = ('slice', tint(self.kind()))
@@ -974,6 +990,8 @@ class Gen:
             vx.readonly = False          # assigning to the iteration variable must not touch the sequence
             self.feat.add('range-value-is-a-copy')
         body, lbl = self.loop_body(cx, trips)
+        if u == STR and kx and vx and not cx.pure and r.random() < 0.6:
+            body = [Print(False, [VarRef(kx), StrLit(b":"), VarRef(vx), StrLit(b" ")])] + body
         cx.pop()
         self.feat.add('range-' + seqkind(t))
         if seqkind(t) == 'arr' and vx is not None and not isinstance(e, SeqLit):
@@ -993,6 +1011,10 @@ class Gen:
             u = under(v.ty)
             if isinstance(u, tuple) and u[0] == 'func' and not v.maybe_nil and self.affordable(cx, getattr(v, 'cost', 30)):
                 out.append(('clo', v, None))
+        for e, t in self.readables(cx):
+            u = under(t)
+            if isinstance(u, tuple) and u[0] == 'func' and not isinstance(e, VarRef) and self.affordable(cx, 30):
+                out.append(('cloe', e, None))
         for e, t in self.writables(cx) + [(VarRef(v), v.ty) for v in cx.vars() if v.readonly]:
             u = under(t)
             dd = None
@@ -1018,6 +1040,11 @@ class Gen:
         if kind == 'fn':
             call = self.mk_call(cx, f, 2)
             rtys, cost = [r.ty for r in f.results], f.cost
+        elif kind == 'cloe':
+            sig = under(f.ty)[1]
+            call = CallV(f, [self.expr(cx, p, 2) for p in sig.params])
+            rtys, cost = sig.results, 30
+            self.feat.add('func-field-call')
         elif kind == 'clo':
             sig = under(f.ty)[1]
             call = CallV(VarRef(f), [self.expr(cx, p, 2) for p in sig.params])
